@@ -39,7 +39,7 @@ func (c *Ctx) hasPanic(fn *ssa.Function, depth int, memo map[*ssa.Function]bool)
 
 func ruleC16(c *Ctx, r *Rep) {
 	hs := handlerFuncs(c)
-	r.Floor("C16:handlers", len(hs), 24)
+	r.Floor("C16:handlers", len(hs), 16)
 	nCtor := 0
 	c.EntShape()
 	type res struct {
@@ -106,7 +106,7 @@ func ruleC16(c *Ctx, r *Rep) {
 		}
 		walk(h)
 	}
-	r.Floor("C16.1:constructor-sites", nCtor, 7)
+	r.Floor("C16.1:constructor-sites", nCtor, 5)
 	// the interceptor chain has no recovery (otherwise a panic would not terminate the server; the rule stays valid either way)
 }
 
